@@ -678,3 +678,29 @@ package fit
 //@   loop 1 invariant [range] -1 <= rangeindex && rangeindex < len(opts)
 //@   loop 1 invariant [fresh] fresh_decoder(d) && fresh(d) && d != nil
 //@   loop 1 decreases len(opts) - rangeindex
+
+//@@ ------------------------------------------------------------------ unknown.go: orders of the exported counters
+
+//@ func (p unknownFieldSlice) Less(i int, j int) (r bool)
+//@   props C08 C16
+//@   requires 0 <= i && i < len(p) && 0 <= j && j < len(p)
+//@   ensures [lexicographic] r == (p[i].MesgNum < p[j].MesgNum || (p[i].MesgNum == p[j].MesgNum && p[i].FieldNum < p[j].FieldNum))
+//@   assigns nothing
+
+//@ func (p unknownMessageSlice) Less(i int, j int) (r bool)
+//@   props C08 C16
+//@   requires 0 <= i && i < len(p) && 0 <= j && j < len(p)
+//@   ensures [by-number] r == (p[i].MesgNum < p[j].MesgNum)
+//@   assigns nothing
+
+//@@ the lexicographic order on (message number, field number) is a strict total order on distinct keys,
+//@@ so sorting a set of counters with distinct keys has exactly one result
+//@ lemma lex_total(m1 MesgNum, f1 byte, m2 MesgNum, f2 byte)
+//@   props C08 C16
+//@   hyp m1 != m2 || f1 != f2
+//@   concl (m1 < m2 || (m1 == m2 && f1 < f2)) != (m2 < m1 || (m2 == m1 && f2 < f1))
+
+//@ lemma lex_transitive(m1 MesgNum, f1 byte, m2 MesgNum, f2 byte, m3 MesgNum, f3 byte)
+//@   props C08 C16
+//@   hyp (m1 < m2 || (m1 == m2 && f1 < f2)) && (m2 < m3 || (m2 == m3 && f2 < f3))
+//@   concl m1 < m3 || (m1 == m3 && f1 < f3)
